@@ -4,7 +4,8 @@ import LunarVerif.Spec.C01
 implementation's answers).
 
 Op lines (numbers are decimal naturals, `-` = none):
-  quota id=<n> parent=<n|-> max=<n> win=<ns> gh=<n|-> [cc=<n|->]   ids must be 0,1,2,… in order
+  quota id=<n> parent=<n|-> max=<n> win=<ns> gh=<n|-> [cc=<n|->] [sp=<n>] [wu=second|minute|hour|day|month]
+                                                            ids must be 0,1,2,… in order
   quota id=<n> parent=<n> pct=<1..100>                      allocation_percentage child
   start level=<1|2> t=<ns>
   inc|allowed|dec|req q=<n> r=<n> t=<ns> hdrs=<-|i:v,i:v,…> [costs=<-|i:enc,…>]
@@ -44,6 +45,15 @@ def parseQuota (qs : List QuotaCfg) (ws : List String) : Option (Nat × QuotaCfg
     let _ ← (match kv ws "sp" with
              | some _ => (kvNat ws "sp").bind fun n => if n ≥ 1 then some n else none
              | none => some 0)
+    -- `wu=<unit>`: the unit the harness writes the window with; it must divide the window
+    let _ ← (match kv ws "wu" with
+             | none => some ()
+             | some u =>
+               let ns : Option Nat :=
+                 if u == "second" then some nsPerSec else if u == "minute" then some (60 * nsPerSec)
+                 else if u == "hour" then some (3600 * nsPerSec) else if u == "day" then some (86400 * nsPerSec)
+                 else if u == "month" then some (30 * 86400 * nsPerSec) else none
+               ns.bind fun n => if win % n == 0 then some () else none)
     pure (id, ⟨p, mx, win, gh, cc⟩, decide (1 ≤ mx))
 
 /-- `i:v,i:v`; later entries override earlier ones (a Go map literal filled in order). -/
